@@ -23,17 +23,22 @@ gvars == <<svars, hist, seen>>
 
 Internal ==
   \/ \E k \in Calls : Register(k) \/ Send(k)
-  \/ \E c \in Conns : SrvRead(c) /\ UNCHANGED <<sent, cliVars>>
-  \/ \E c \in Conns : ConsumerTake(c) /\ UNCHANGED <<sent, cliVars>>
-  \/ \E c \in Conns : (ConsumerStep(c) \/ ConsumerRefuse(c) \/ ConsumerClose(c)) /\ UNCHANGED <<sent, cliVars>>
-  \/ \E o \in AllObjs : (ObjRecv(o) \/ ObjStub(o) \/ ObjReply(o)) /\ UNCHANGED <<sent, cliVars>>
-  \/ AuthStub /\ UNCHANGED <<sent, cliVars>>
+  \/ \E c \in Conns : Srv(SrvRead(c)) \/ Srv(ConsumerTake(c))
+  \/ \E c \in Conns : Srv(ConsumerStep(c)) \/ Srv(ConsumerRefuse(c)) \/ Srv(ConsumerClose(c))
+  \/ \E o \in AllObjs : Srv(ObjRecv(o)) \/ Srv(ObjStub(o)) \/ Srv(ObjReply(o))
+  \/ Srv(AuthStub)
+
+(* a method without result (pong.PingPong.ping, action 101): its reply frame carries no payload *)
+VoidActs == {101}
+SeenVal(m) == IF m.type = "reply" /\ m.act \in VoidActs THEN "void" ELSE m.val
+(* objects of the second service are numbered 201, 202, .. in the exported observation *)
+ObjCode(o) == IF o[1] = 1 THEN o[2] ELSE 100 * o[1] + o[2]
 
 IntStep ==
   \/ Internal /\ UNCHANGED <<hist, seen>>
   \/ \E c \in Conns : /\ CliDispatch(c)
                       /\ seen' = [seen EXCEPT ![c] = Append(@, [type |-> Head(s2c[c]).type, id |-> Head(s2c[c]).id,
-                                                                 val |-> Head(s2c[c]).val])]
+                                                                 val |-> SeenVal(Head(s2c[c]))])]
                       /\ UNCHANGED hist
 
 Settled == ~ENABLED IntStep
@@ -41,7 +46,7 @@ Settled == ~ENABLED IntStep
 Control ==
   \/ \E k \in Calls : NextID(k) /\ hist' = Append(hist, <<"call", k>>) /\ UNCHANGED seen
   \/ \E r \in Raws : SendRaw(r) /\ hist' = Append(hist, <<"raw", r.tag>>) /\ UNCHANGED seen
-  \/ \E o \in Objs : /\ ObjExecEnd(o) /\ UNCHANGED <<sent, cliVars>>
+  \/ \E o \in Objs : /\ Srv(ObjExecEnd(o))
                      /\ hist' = Append(hist, <<"fin", run[o].m.tag>>) /\ UNCHANGED seen
 
 GInit == SysInit /\ hist = <<>> /\ seen = [c \in Conns |-> <<>>]
@@ -49,7 +54,7 @@ GNext == IF Settled THEN Control ELSE IntStep
 GSpec == GInit /\ [][GNext]_gvars
 
 Obs == [outcome |-> outcome,
-        execs   |-> [i \in 1..Len(execLog) |-> [obj |-> execLog[i].obj[2], tag |-> execLog[i].tag, type |-> execLog[i].type]],
+        execs   |-> [i \in 1..Len(execLog) |-> [obj |-> ObjCode(execLog[i].obj), tag |-> execLog[i].tag, type |-> execLog[i].type]],
         seen    |-> seen,
         done    |-> {k \in Calls : cst[k] = "done"}]
 
@@ -60,7 +65,7 @@ Export == Terminal => PrintT(<<"B", ToJson([h |-> hist, o |-> Obs])>>)
 Scenario == [calls |-> [k \in Calls |-> [client |-> ClientOf[k], conn |-> ConnOf(k), svc |-> SvcOf[k],
                                          obj |-> ObjOf[k], act |-> ActOf[k]]],
              raws  |-> [t \in {r.tag : r \in Raws} |-> CHOOSE r \in Raws : r.tag = t],
-             conns |-> Conns, objs |-> {o[2] : o \in Objs}, fail |-> FailTags]
+             conns |-> Conns, objs |-> {ObjCode(o) : o \in Objs}, fail |-> FailTags]
 ASSUME PrintT(<<"S", ToJson(Scenario)>>)
 
 (* the C04 invariants hold on the settled behaviours as on all others *)
